@@ -259,27 +259,38 @@ func reportPanics(c *kit.Case, rt reflect.Type, label string, tx texts, res [3]o
 	return found
 }
 
-// threeWay runs oracle 1 on one document; returns the outcomes and whether they were comparable.
-func threeWay(c *kit.Case, rt reflect.Type, label string, tx texts) ([3]outcome, bool) {
+// disagreement is what oracle 1 found on one document.
+type disagreement struct {
+	kind, pattern, what string // kind: verdict | value
+	wit                 map[string]any
+}
+
+// threeWay runs oracle 1 on one document: the outcomes, whether they can serve as the reference of
+// the further oracles (no panic, no disagreement), and the disagreement if any (not yet reported:
+// the caller first decides which class of input it belongs to).
+func threeWay(c *kit.Case, rt reflect.Type, label string, tx texts, count bool) ([3]outcome, bool, *disagreement) {
 	res := loadAll(rt, tx)
 	c.Obs("conf_loads", 3)
 	if reportPanics(c, rt, label, tx, res) {
-		return res, false
+		return res, false, nil
 	}
 	acc := [3]bool{res[0].ok(), res[1].ok(), res[2].ok()}
 	wit := func() map[string]any {
-		return map[string]any{"type": typeText(rt), "label": label, "documents": tx.witness(),
+		return map[string]any{"type": typeText(rt), "documents": tx.witness(),
 			"json_result": res[0].describe(), "yaml_result": res[1].describe(), "toml_result": res[2].describe()}
 	}
 	if acc[0] != acc[1] || acc[0] != acc[2] {
-		c.Viol("C17/verdict/"+labelClass(label)+"/"+pattern(acc), "the same document is accepted in one format and rejected in another", wit())
-		return res, false
+		return res, false, &disagreement{"verdict", pattern(acc), "the same document is accepted in one format and rejected in another", wit()}
 	}
 	if !acc[0] {
-		c.Obs("pairs_all_reject", 1)
-		return res, true
+		if count {
+			c.Obs("pairs_all_reject", 1)
+		}
+		return res, true, nil
 	}
-	c.Obs("pairs_all_accept", 1)
+	if count {
+		c.Obs("pairs_all_accept", 1)
+	}
 	jy := reflect.DeepEqual(res[0].val.Interface(), res[1].val.Interface())
 	jt := reflect.DeepEqual(res[0].val.Interface(), res[2].val.Interface())
 	yt := reflect.DeepEqual(res[1].val.Interface(), res[2].val.Interface())
@@ -295,10 +306,44 @@ func threeWay(c *kit.Case, rt reflect.Type, label string, tx texts) ([3]outcome,
 		default:
 			p = "all-differ"
 		}
-		c.Viol("C17/value/"+labelClass(label)+"/"+p, "the same document loads to different values depending on the format", wit())
-		return res, false
+		return res, false, &disagreement{"value", p, "the same document loads to different values depending on the format", wit()}
 	}
-	return res, true
+	return res, true, nil
+}
+
+// keyCase runs oracle 2 on one document: the formats whose result changes when only the letter
+// case of struct-field keys changes.
+func keyCase(c *kit.Case, r, rs *kit.Rand, rt reflect.Type, label string, d0 *node, tx0 texts, res0 [3]outcome) (bad []string, kind string, wit map[string]any) {
+	d1 := d0.clone(func(e ent) string {
+		if e.perm {
+			return permuteCase(r, e.key)
+		}
+		return e.key
+	})
+	tx1 := renderAll(d1, rs)
+	if tx1[0] == tx0[0] || !selfCheck(c, d1, tx1) {
+		return nil, "", nil
+	}
+	res1 := loadAll(rt, tx1)
+	c.Obs("conf_loads", 3)
+	c.Obs("keycase_variants", 1)
+	if reportPanics(c, rt, label, tx1, res1) {
+		return nil, "", nil
+	}
+	for i := range res1 {
+		if same, k := sameOutcome(res0[i], res1[i]); !same {
+			bad = append(bad, fmtNames[i])
+			kind = k
+		}
+	}
+	if len(bad) == 0 {
+		return nil, "", nil
+	}
+	return bad, kind, map[string]any{"type": typeText(rt), "formats": bad,
+		"canonical_documents": tx0.witness(), "permuted_documents": tx1.witness(),
+		"canonical_json_result": res0[0].describe(), "permuted_json_result": res1[0].describe(),
+		"canonical_yaml_result": res0[1].describe(), "permuted_yaml_result": res1[1].describe(),
+		"canonical_toml_result": res0[2].describe(), "permuted_toml_result": res1[2].describe()}
 }
 
 func sameOutcome(a, b outcome) (bool, string) {
@@ -393,8 +438,14 @@ func runPair(c *kit.Case, t *tdesc, plain bool, scratch string, idx int) {
 	d0 := g.value(t, 0)
 	label := "well-typed"
 	mutated := r.Chance(0.55)
+	var base *node // the document before the mismatch was put in
 	if mutated {
+		base = d0.clone(func(e ent) string { return e.key })
 		label = g.mutate(d0, false)
+		mutated = label != "well-typed"
+	}
+	if !mutated || base.has(nBigUint) {
+		base = nil
 	}
 	rs := kit.NewRand(r.Uint64())
 	c.Evals(1)
@@ -419,53 +470,52 @@ func runPair(c *kit.Case, t *tdesc, plain bool, scratch string, idx int) {
 	} else {
 		tx0 := renderAll(d0, rs)
 		if selfCheck(c, d0, tx0) {
-			res0, comparable := threeWay(c, t.rt, label, tx0)
+			res0, comparable, dis := threeWay(c, t.rt, label, tx0, true)
 			c.Obs("pairs_compared", 1)
+			if dis != nil {
+				// attribute the disagreement: if the document without the mismatch disagrees in the
+				// same way, the mismatch is not what causes it
+				lab := label
+				if base != nil {
+					txb := renderAll(base, rs)
+					if selfCheck(c, base, txb) {
+						if _, _, db := threeWay(c, t.rt, "well-typed", txb, false); db != nil && db.kind == dis.kind && db.pattern == dis.pattern {
+							lab, dis = "well-typed", db
+						}
+					}
+				}
+				dis.wit["label"] = lab
+				c.Viol("C17/"+dis.kind+"/"+labelClass(lab)+"/"+dis.pattern, dis.what, dis.wit)
+			}
 			nontrivial = sh.nested+sh.slices+sh.maps+sh.ptrs+sh.embedded > 0 || mutated
 			if idx < 2 && c.Index < 3 {
 				c.Sample("pair-"+map[bool]string{true: "mismatch", false: "well-typed"}[mutated], 2, map[string]any{"type": typeText(t.rt), "label": label, "documents": tx0.witness(), "accepted": res0[0].ok()})
 			}
 			// ---- oracle 2: key-case permutation
 			if comparable && d0.hasPermKeys() {
-				d1 := d0.clone(func(e ent) string {
-					if e.perm {
-						return permuteCase(r, e.key)
-					}
-					return e.key
-				})
-				tx1 := renderAll(d1, rs)
-				if tx1[0] != tx0[0] && selfCheck(c, d1, tx1) {
-					res1 := loadAll(t.rt, tx1)
-					c.Obs("conf_loads", 3)
-					c.Obs("keycase_variants", 1)
-					if !reportPanics(c, t.rt, label, tx1, res1) {
-						var bad []string
-						kind := ""
-						for i := range res1 {
-							if same, k := sameOutcome(res0[i], res1[i]); !same {
-								bad = append(bad, fmtNames[i])
-								kind = k
+				if bad, kind, wit := keyCase(c, r, rs, t.rt, label, d0, tx0, res0); len(bad) > 0 {
+					lab, dd := label, d0
+					if base != nil && base.hasPermKeys() {
+						txb := renderAll(base, rs)
+						if selfCheck(c, base, txb) {
+							if resb, ok, _ := threeWay(c, t.rt, "well-typed", txb, false); ok {
+								if bb, kb, wb := keyCase(c, r, rs, t.rt, "well-typed", base, txb, resb); len(bb) > 0 && kb == kind {
+									lab, dd, bad, wit = "well-typed", base, bb, wb
+								}
 							}
 						}
-						if len(bad) > 0 {
-							key := "C17/keycase-" + kind + "/" + labelClass(label)
-							if label == "well-typed" || label == "extra-key" || strings.HasPrefix(label, "missing-") {
-								key += "/" + shapeClass(t)
-							}
-							key += "/" + strings.Join(bad, "+")
-							if mapKeyEqualsFieldName(d0) {
-								// one class whatever else the document contains
-								key = "C17/keycase/map-key-equals-a-field-name"
-							}
-							c.Viol(key,
-								"changing only the letter case of struct-field keys changes the result",
-								map[string]any{"type": typeText(t.rt), "label": label, "formats": bad,
-									"canonical_documents": tx0.witness(), "permuted_documents": tx1.witness(),
-									"canonical_json_result": res0[0].describe(), "permuted_json_result": res1[0].describe(),
-									"canonical_yaml_result": res0[1].describe(), "permuted_yaml_result": res1[1].describe(),
-									"canonical_toml_result": res0[2].describe(), "permuted_toml_result": res1[2].describe()})
-						}
 					}
+					key := "C17/keycase-" + kind + "/" + labelClass(lab)
+					if lab == "well-typed" || lab == "extra-key" || strings.HasPrefix(lab, "missing-") {
+						key += "/" + shapeClass(t)
+					}
+					key += "/" + strings.Join(bad, "+")
+					if mapKeyEqualsFieldName(dd) {
+						// one class whatever else the document contains
+						key = "C17/keycase/map-key-equals-a-field-name"
+					}
+					wit["label"] = lab
+					c.Viol(key, "changing only the letter case of struct-field keys changes the result", wit)
 				}
 			}
 			// ---- oracle 3 (file part): conf.Load on a file == the bytes loader, with and without UseEnv
@@ -477,7 +527,11 @@ func runPair(c *kit.Case, t *tdesc, plain bool, scratch string, idx int) {
 
 	// ---- oracle 4: encoding/json agreement (plain-json-tag types only)
 	if plain {
-		stdjson(c, t.rt, label, renderJSON(d0, rs), !d0.has(nBigUint))
+		baseText := ""
+		if base != nil {
+			baseText = renderJSON(base, rs)
+		}
+		stdjson(c, t.rt, label, renderJSON(d0, rs), baseText, !d0.has(nBigUint))
 		nontrivial = true
 	}
 	c.Sig(nontrivial, typeText(t.rt), renderJSON(d0, nil))
@@ -518,31 +572,27 @@ func fileOracle(c *kit.Case, rt reflect.Type, label string, tx texts, want [3]ou
 	}
 }
 
-// inDomain: the input is a document value representable in all three formats (the property's
-// quantifier); outside it (nulls, numbers beyond 64-bit precision) differences are only counted.
-func stdjson(c *kit.Case, rt reflect.Type, label, text string, inDomain bool) {
+// stdDiff decodes one input with both decoders; diff is the class of the first difference when
+// both accept and the values are not DeepEqual.
+func stdDiff(c *kit.Case, rt reflect.Type, label, text string, count bool) (diff string, wit map[string]any) {
 	a := load(rt, func(v any) error { return mapping.UnmarshalJsonBytes([]byte(text), v) })
 	if a.panic != "" {
 		c.Viol(panicKey(a.panic), "mapping.UnmarshalJsonBytes panicked",
 			map[string]any{"type": typeText(rt), "label": label, "document": text, "panic": a.panic})
-		return
+		return "", nil
 	}
 	b := load(rt, func(v any) error { return json.Unmarshal([]byte(text), v) })
 	switch {
 	case a.ok() && b.ok():
-		c.Obs("stdjson_both_accept", 1)
-		if !reflect.DeepEqual(a.val.Interface(), b.val.Interface()) && !inDomain {
-			c.Obs("outside_quantifier_stdjson_value_differs_"+labelClass(label), 1)
-		} else if !reflect.DeepEqual(a.val.Interface(), b.val.Interface()) {
-			key := "C17/stdjson-value/" + diffClass(a.val, b.val)
-			if key != "C17/stdjson-value/float32-adjacent-values" {
-				key += "/" + labelClass(label)
-			}
-			c.Viol(key, "mapping.UnmarshalJsonBytes and encoding/json both accept the input but decode different values",
-				map[string]any{"type": typeText(rt), "label": label, "document": text,
-					"gozero": show(a.val), "encoding_json": show(b.val),
-					"gozero_go": truncate(fmt.Sprintf("%#v", a.val.Interface()), 800), "encoding_json_go": truncate(fmt.Sprintf("%#v", b.val.Interface()), 800)})
+		if count {
+			c.Obs("stdjson_both_accept", 1)
 		}
+		if !reflect.DeepEqual(a.val.Interface(), b.val.Interface()) {
+			return diffClass(a.val, b.val), map[string]any{"type": typeText(rt), "document": text,
+				"gozero": show(a.val), "encoding_json": show(b.val),
+				"gozero_go": truncate(fmt.Sprintf("%#v", a.val.Interface()), 800), "encoding_json_go": truncate(fmt.Sprintf("%#v", b.val.Interface()), 800)}
+		}
+	case !count:
 	case a.ok():
 		c.Obs("stdjson_only_gozero_accepts", 1)
 	case b.ok():
@@ -550,6 +600,33 @@ func stdjson(c *kit.Case, rt reflect.Type, label, text string, inDomain bool) {
 	default:
 		c.Obs("stdjson_both_reject", 1)
 	}
+	return "", nil
+}
+
+// stdjson is oracle 4 on one input. baseText is the same document without the mismatch ("" if there
+// is none): a difference that it shows as well is not attributed to the mismatch.
+// inDomain: the input is a document value representable in all three formats (the property's
+// quantifier); outside it (nulls, numbers beyond 64-bit precision) differences are only counted.
+func stdjson(c *kit.Case, rt reflect.Type, label, text, baseText string, inDomain bool) {
+	diff, wit := stdDiff(c, rt, label, text, true)
+	if diff == "" {
+		return
+	}
+	if baseText != "" {
+		if db, wb := stdDiff(c, rt, "well-typed", baseText, false); db == diff {
+			label, wit, inDomain = "well-typed", wb, true
+		}
+	}
+	if !inDomain {
+		c.Obs("outside_quantifier_stdjson_value_differs_"+labelClass(label), 1)
+		return
+	}
+	key := "C17/stdjson-value/" + diff
+	if diff != "float32-adjacent-values" {
+		key += "/" + labelClass(label)
+	}
+	wit["label"] = label
+	c.Viol(key, "mapping.UnmarshalJsonBytes and encoding/json both accept the input but decode different values", wit)
 }
 
 // ---------------------------------------------------------------- encoding/json family extras
@@ -599,6 +676,10 @@ func runStdPair(c *kit.Case, t *tdesc) {
 	g := &dgen{r: r}
 	d := g.value(t, 0)
 	label := "well-typed"
+	baseText := ""
+	if !d.has(nBigUint) {
+		baseText = renderJSON(d, nil)
+	}
 	switch r.Pick(3, 3, 2, 2, 2) {
 	case 0:
 		if len(g.sites) > 0 {
@@ -632,7 +713,7 @@ func runStdPair(c *kit.Case, t *tdesc) {
 	}
 	c.Evals(1)
 	text := renderJSON(d, kit.NewRand(r.Uint64()))
-	stdjson(c, t.rt, label, text, !d.has(nNull) && !d.has(nBigUint) && !strings.Contains(label, "beyond-float64"))
+	stdjson(c, t.rt, label, text, baseText, !d.has(nNull) && !d.has(nBigUint) && !strings.Contains(label, "beyond-float64"))
 	if d.has(nNull) && t.k == tStruct && !d.has(nRawNum) {
 		// nulls are outside the three-format quantifier (TOML has none); the JSON and YAML
 		// loaders are still run on them, for panics only
